@@ -26,7 +26,15 @@ def run(ctx):
             ev = []
             obj = None
             for j, kl in enumerate(seq):
-                K = keys.setdefault(kl, bytes(rnd.randrange(256) for _ in range(kl)))
+                def mk(kl=kl):
+                    k = bytearray(rnd.randrange(256) for _ in range(kl))
+                    cls = (si + ai) % 6            # content classes: bytes that cancel against ipad / opad, leading zero bytes
+                    if kl and cls == 1: k[0] = 0x36
+                    if kl and cls == 2: k[0] = 0x5c
+                    if kl and cls == 3: k[:2] = b'\x00\x00'[:kl]
+                    if kl and cls == 4: k = bytearray(b'\x36' * kl)
+                    return bytes(k)
+                K = keys.setdefault(kl, mk())
                 e = dict(op='setkey', key=B(K), raised='')
                 try:
                     if obj is None: obj = HMAC(H.make(name), K)
